@@ -3,6 +3,8 @@ import XmppModel.Lemmas.StartTLS
 import XmppModel.Lemmas.StartTLSShape
 import XmppModel.Lemmas.StartTLSFuel
 import XmppModel.Lemmas.StartTLSName
+import XmppModel.Lemmas.ByteDecoder
+import XmppModel.Lemmas.StartTLSRechunk
 import XmppModel.Generated.C02
 /-!
 # C02 — a client asked to use STARTTLS never proceeds in clear text
@@ -214,6 +216,50 @@ theorem C02_servername_explicit (l : List SniSess) :
   | cons x rest ih =>
     obtain ⟨d, r, s2s, k⟩ := x
     cases k <;> simp [sessions, negotiateName, ih]
+
+/-! ### Bytes: units split across reads, re-chunking
+
+`encoding/xml` is a parameter (`Tokeniser`): for the bytes from a unit boundary on it says whether
+a complete unit is a prefix of them; a longer input does not change an answer already given and
+a unit has at least one byte.  The peer's byte stream may be cut into reads anywhere. -/
+
+/-- **What the decoder delivers does not depend on the chunking.**  For two chunkings of the same
+byte stream (read-ahead ++ remaining chunks), any number of pulls delivers the same units. -/
+theorem C02_rechunking_units (tk : Tokeniser) (k : Nat) (cs1 cs2 : List Bs) (b1 b2 : Bs)
+    (h : b1 ++ cs1.flatten = b2 ++ cs2.flatten) : unitsB tk k cs1 b1 = unitsB tk k cs2 b2 :=
+  unitsB_rechunk tk k cs1 cs2 b1 b2 h
+
+/-- **The unit/segment model is the byte-level decoder.**  The byte-level decoder with read-ahead
+over any chunking behaves as the unit-level decoder (`pullU` — which is `pull` of the session
+model in clear text, `pull_clear_ok`/`pull_clear_stop`) over the induced segmentation, in which a
+unit split across reads belongs to the read that completes it: same unit (or both at the end of
+the stream), and afterwards again corresponding read-ahead and remaining input — so what sits in
+the read-ahead when a new layer is installed corresponds as well. -/
+theorem C02_byte_decoder_refines (tk : Tokeniser) (cs : List Bs) (b : Bs) :
+    match pullB tk cs b with
+    | some (u, b', cs') =>
+      pullU (tokAll tk b).1 (absChunks tk (tokAll tk b).2 cs) =
+        some (u, (tokAll tk b').1, absChunks tk (tokAll tk b').2 cs')
+    | none => pullU (tokAll tk b).1 (absChunks tk (tokAll tk b).2 cs) = none :=
+  pullB_refines tk cs b
+
+/-- **The clear-text phase is invariant under re-chunking of the peer's byte stream.**  Two
+sessions whose peers send the same clear-text bytes cut into reads differently go through the
+negotiator call in lock step: the same writes and deliveries (equal traces), the same stop reason,
+or the same result (mask, new layer) with sessions that still differ only in the cut.  (Once a
+TLS layer is installed the read-ahead is dropped: *that* depends on the cut, and is the subject
+of `C02_prebuffer_dropped`.) -/
+theorem C02_rechunking_clear_phase (tk : Tokeniser) (cfg : FCfg) (env : Env) (st0 : Mask) (cs1 cs2 : List Bs)
+    (prot : List PItem) (oracle : List (Nat × NegRes)) (fuel : Nat) (h : cs1.flatten = cs2.flatten) :
+    RelRes (step cfg fuel (initBytes tk env st0 cs1 prot oracle))
+           (step cfg fuel (initBytes tk env st0 cs2 prot oracle)) :=
+  step_sync cfg fuel _ _ (initBytes_sync tk env st0 cs1 cs2 prot oracle h)
+
+/-- the tokeniser contract is satisfiable, and the decoder does split/merge reads: "HP" delivered
+as one read or as two gives the same two units -/
+example : unitsB byteTokeniser 5 [[72, 80]] [] = [.hdr true, .proceed] ∧
+    unitsB byteTokeniser 5 [[72], [], [80]] [] = [.hdr true, .proceed] :=
+  ⟨rfl, rfl⟩
 
 /-! ### Non-vacuity -/
 
